@@ -1743,29 +1743,29 @@ wait:
 			"exact result needs rounding / exceeds 34 digits / is non-terminating, an exact op refused, zero-crossing subtraction or cancellation, exponents > 20 apart, operands sharing a parent " +
 			"(or identical), division by zero, equal values in different representations, zero variants (-0, 0E±k) under predicates/String, non-integral / negative / out-of-range conversions, " +
 			"scientific / negative-zero / >34-digit / leading-zero / rejected / outside-grammar-accepted input strings",
-		"samples":                    samples,
-		"workers":                    ts.Workers,
-		"ops_per_worker":             ts.OpsPerWorker,
-		"pool_size":                  PoolSize,
-		"per_operation":              perOp,
-		"needed_rounding":            tot.neededRounding,
-		"exceeded_34_digits":         tot.exceeded34,
-		"non_terminating":            tot.nonTerminating,
-		"zero_crossing_subtractions": tot.zeroCrossingSub,
-		"operands_sharing_a_parent":  tot.sharedParent,
-		"operands_same_member":       tot.sameMember,
-		"max_rounding_error_units_of_34th_digit": maxUlpAll,
-		"results_more_than_half_unit_off":        tot.halfUlpExceeded,
-		"exact_ops_succeeded":                    tot.exactOK,
-		"exact_ops_refused":                      tot.exactRefused,
-		"mulexact_refused_trailing_zeros_only":   tot.mulExactTrailingZerosOnly,
-		"rem_rounded_to_34_digits":               tot.remRounded,
-		"quointeger_refused":                     tot.quoIntRefused,
-		"rem_refused":                            tot.remRefused,
-		"divisions_by_zero":                      tot.divByZero,
-		"strings_in_grammar":                     tot.parseInGrammar,
-		"strings_out_of_exponent_domain":         tot.parseOutOfDomain,
-		"strings_outside_grammar_accepted":       tot.outsideAccepted,
+		"samples":                                   samples,
+		"workers":                                   ts.Workers,
+		"ops_per_worker":                            ts.OpsPerWorker,
+		"pool_size":                                 PoolSize,
+		"per_operation":                             perOp,
+		"needed_rounding":                           tot.neededRounding,
+		"exceeded_34_digits":                        tot.exceeded34,
+		"non_terminating":                           tot.nonTerminating,
+		"zero_crossing_subtractions":                tot.zeroCrossingSub,
+		"operands_sharing_a_parent":                 tot.sharedParent,
+		"operands_same_member":                      tot.sameMember,
+		"max_rounding_error_units_of_34th_digit":    maxUlpAll,
+		"results_more_than_half_unit_off":           tot.halfUlpExceeded,
+		"exact_ops_succeeded":                       tot.exactOK,
+		"exact_ops_refused":                         tot.exactRefused,
+		"mulexact_refused_trailing_zeros_only":      tot.mulExactTrailingZerosOnly,
+		"rem_rounded_to_34_digits":                  tot.remRounded,
+		"quointeger_refused":                        tot.quoIntRefused,
+		"rem_refused":                               tot.remRefused,
+		"divisions_by_zero":                         tot.divByZero,
+		"strings_in_grammar":                        tot.parseInGrammar,
+		"strings_out_of_exponent_domain":            tot.parseOutOfDomain,
+		"strings_outside_grammar_accepted":          tot.outsideAccepted,
 		"strings_outside_grammar_accepted_by_class": tot.outsideAcceptedClasses,
 		"strings_outside_grammar_rejected":          tot.outsideRejected,
 		"nonfinite_accepted":                        tot.nonfiniteAccepted,
